@@ -54,6 +54,9 @@ func (fc *FnCtx) mapSymbols(mt types.Type) *mapSyms {
 	}
 	fc.assertGlobal(fmt.Sprintf("(forall ((st Int) %s %s) (! (%s %s %s) :pattern (%s)))",
 		strings.Join(qk, " "), strings.Join(qv, " "), mangle("mhas."+tn), put, strings.Join(ka, " "), put))
+	delT := fmt.Sprintf("(%s st %s)", mangle("mdel."+tn), strings.Join(ka, " "))
+	fc.assertGlobal(fmt.Sprintf("(forall ((st Int) %s) (! (not (%s %s %s)) :pattern (%s)))",
+		strings.Join(qk, " "), mangle("mhas."+tn), delT, strings.Join(ka, " "), delT))
 	fc.assertGlobal(fmt.Sprintf("(forall (%s) (not (%s %s %s)))", strings.Join(qk, " "), mangle("mhas."+tn), mangle("mempty."+tn), strings.Join(ka, " ")))
 	fc.assertGlobal(fmt.Sprintf("(forall ((st Int)) (<= 0 (%s st)))", mangle("mlen."+tn)))
 	return ms
